@@ -201,6 +201,7 @@ def run(res: Results, idx: Index, tier: str) -> None:
         res.ok("R-C07a", f"{PS}:{fp.node.lineno}", key, "every leaf / attribute contributes its value fingerprint", fp.qualname)
     else:
         res.violation("R-C07a", f"{PS}:{fp.node.lineno}", key, "some instance leaf / attribute does not contribute a value fingerprint: modules with different weights share one body under unique=True", fp.qualname)
+    rule_d(res, idx)
     vf = idx.func(PS, "FunctionPlugin._value_fingerprint")
     key = f"{PS}::FunctionPlugin._value_fingerprint::content"
     rets = [r for r in walk_no_nested(vf.node) if isinstance(r, ast.Return) and isinstance(r.value, ast.Tuple)]
@@ -210,3 +211,77 @@ def run(res: Results, idx: Index, tier: str) -> None:
         res.ok("R-C07a", f"{PS}:{vf.node.lineno}", key, f"{len(rets)} return forms each carry the literal, a digest of the bytes or repr(value)", vf.qualname)
     else:
         res.violation("R-C07a", f"{PS}:{(weak or [vf.node])[0].lineno}", key, f"a return form of _value_fingerprint carries no content of the value (`{src(weak[0].value) if weak else ''}`)", vf.qualname)
+
+
+# ---------------------------------------------------------------------------------------------- R-C07d
+def counter_allocators(idx: Index, mods):
+    """Functions that draw an index from a keyed counter (`i = C.get(K, 0)`, `C[K] = …`) and return strings built
+    with it.  Yields (fi, key names, identifier component names, site)."""
+    for m in mods:
+        for fi in m.funcs.values():
+            du = defuse(fi.node)
+            gets = []
+            for n in walk_no_nested(fi.node):
+                if isinstance(n, ast.Call) and isinstance(n.func, ast.Attribute) and n.func.attr == "get" and len(n.args) == 2 and isinstance(n.args[1], ast.Constant) and n.args[1].value == 0:
+                    # the same mapping is written back under the same key
+                    cont = dotted(n.func.value)
+                    keysrc = ast.unparse(n.args[0])
+                    wrote = any(isinstance(a, ast.Assign) and any(isinstance(t, ast.Subscript) and dotted(t.value) == cont and ast.unparse(t.slice) == keysrc for t in a.targets) for a in walk_no_nested(fi.node))
+                    if wrote and cont:
+                        gets.append(n)
+            if not gets:
+                continue
+            for gcall in gets:
+                st = enclosing_stmt(gcall)
+                idx_names = set()
+                if isinstance(st, ast.Assign):
+                    idx_names = {t.id for t in st.targets if isinstance(t, ast.Name)}
+                if not idx_names:
+                    continue
+                # identifier templates: f-strings that interpolate the index
+                templates = [j for j in ast.walk(fi.node) if isinstance(j, ast.JoinedStr) and any(isinstance(v, ast.FormattedValue) and (names_in(v.value) & idx_names) for v in j.values)]
+                if not templates:
+                    continue
+
+                def comps(e: ast.AST) -> set:
+                    out = set()
+                    for x in ast.walk(e):
+                        if isinstance(x, ast.Attribute) and isinstance(x.value, ast.Name) and x.value.id in ("self", "cls"):
+                            out.add(f"{x.value.id}.{x.attr}")
+                        elif isinstance(x, ast.Name) and x.id not in ("self", "cls"):
+                            out.add(x.id)
+                    return out
+                key_e = gcall.args[0]
+                key_exprs = [key_e] + (du.values(key_e.id) if isinstance(key_e, ast.Name) else [])
+                nk = set()
+                for ke in key_exprs:
+                    nk |= comps(ke)
+                if isinstance(key_e, ast.Name):
+                    nk.discard(key_e.id)
+                nc = set()
+                for j in templates:
+                    nc |= comps(j)
+                nc -= idx_names
+                yield fi, nk, nc, gcall
+
+
+def _constant_like(du, name: str) -> bool:
+    vals = du.values(name)
+    def const(e):
+        return isinstance(e, ast.Constant) or (isinstance(e, ast.IfExp) and const(e.body) and const(e.orelse))
+    return bool(vals) and all(const(v) for v in vals)
+
+
+def rule_d(res: Results, idx: Index) -> None:
+    res.rule("R-C07d", "counter-based identifier allocators key their counter by (a subset of) the components of the identifier they return: equal identifiers imply equal counter keys, hence different indices", floor=2)
+    mods = [m for m in idx.product_modules() if m.rel.startswith(("jax2onnx/converter/", "jax2onnx/plugins/plugin_system.py"))]
+    for fi, nk, nc, gcall in counter_allocators(idx, mods):
+        du = defuse(fi.node)
+        extra = sorted(k for k in nk if k not in nc and not _constant_like(du, k))
+        key = f"{fi.module.rel}::{fi.qualname}::counter-key"
+        site = f"{fi.module.rel}:{gcall.lineno}"
+        if extra:
+            res.violation("R-C07d", site, key, f"the counter is keyed by {sorted(nk)} but the identifier is built from {sorted(nc)} + index: `{', '.join(extra)}` distinguishes counters without appearing in the identifier, "
+                          "so two allocations with different keys can return the same identifier (the later definition silently replaces the earlier one)", fi.qualname)
+        else:
+            res.ok("R-C07d", site, key, f"counter key {sorted(nk)} is determined by the identifier components {sorted(nc)}", fi.qualname)
